@@ -33,8 +33,9 @@ import time
 from harness import core, tlc, tlaval, crash
 
 SPEC_INV_HOLD = ['TypeOK', 'MeasPrefixOfIdeal', 'FinalEqual', 'ResumeRuns', 'NoStuck', 'FirstCrashSafe',
-                 'AlwaysACompleteFile', 'NeverOnlyPartial', 'CrashedHasComplete']
-VIOL_BITS = ['AlwaysACompleteFile', 'NeverOnlyPartial', 'MeasPrefixOfIdeal', 'FinalEqual', 'ResumeRuns', 'RealNoCompleteFile']
+                 'AlwaysACompleteFile', 'NeverOnlyPartial', 'CrashedHasComplete', 'SavedIsCheckpoint']
+VIOL_BITS = ['AlwaysACompleteFile', 'NeverOnlyPartial', 'MeasPrefixOfIdeal', 'FinalEqual', 'ResumeRuns', 'RealNoCompleteFile',
+             'SavedIsCheckpoint']
 SPEC_INV_FILE = ['AlwaysACompleteFile', 'NeverOnlyPartial']
 
 # workloads (harness/crash.py: workload_params) and the shape of their engine loop
@@ -59,7 +60,8 @@ def consts(wl, **over):
     w = WL[wl]
     c = dict(Kind=w['kind'], NSteps=w['nsteps'], MeasAtCkpt=bool(w['meas']),
              MinSweeps=(1 if w.get('min1') else (w['nsteps'] - 1 if w['kind'] == 'iter' else 0)),
-             TruncErr=bool(w.get('trunc')), SavesAcc=True, GuardStats=True, SafeWrite=True, Protocol='replace',
+             NSub=(2 if w['kind'] == 'tevo' else 1),     # harness/crash.py: N_steps = 2 evolve_step calls per engine.run
+             SubCkpt=False, TruncErr=bool(w.get('trunc')), SavesAcc=True, GuardStats=True, SafeWrite=True, Protocol='replace',
              MaxWrites=2, MaxCrashes=2, AllowRestart=True)
     c.update(over)
     return c
@@ -120,7 +122,7 @@ def normalise_ops(incs, kind):
             continue
         ops = []
         for l in inc['ops']:
-            if l['op'] == 'alg' and kind != 'dummy':
+            if l['op'] == 'sub' or (l['op'] == 'alg' and kind != 'dummy'):
                 continue
             if l['op'] == 'write' and ops and ops[-1]['op'] == 'write' and ops[-1]['f'] == l['f']:
                 ops[-1]['n'] += l['n']
@@ -243,6 +245,9 @@ class C18:
                      ['CrashedHasComplete'], False))
         jobs.append(('witness:no-stats-guard', wi[0], consts(wi[0], GuardStats=False), ['ResumeRuns'], False))
         jobs.append(('witness:acc-not-saved', wt[0], consts(wt[0], SavesAcc=False), ['MeasPrefixOfIdeal'], False))
+        wte = [w for w in wls if WL[w]['kind'] == 'tevo'] or ['expmpo']
+        jobs.append(('witness:checkpoint-inside-engine-run', wte[0], consts(wte[0], SubCkpt=True), ['SavedIsCheckpoint'], False))
+        jobs.append(('witness:checkpoint-inside-engine-run-final', wte[0], consts(wte[0], SubCkpt=True), ['FinalEqual'], False))
         out = []
         with cf.ThreadPoolExecutor(max_workers=4) as tp:
             # one worker: breadth-first search then returns a shortest (and reproducible) counterexample
@@ -367,6 +372,13 @@ class C18:
         for i in idxs:
             plans.append(self.make_plan(wl, fmt, [dict(mode='run', f=None, raw_idx=i)], 'every-call'))
         return plans
+
+    def plans_after_saves(self, wl, fmt):
+        """a crash right after every completed save of the uninterrupted run (taken from the recorded execution, so it
+        also visits saves the specification does not know about)"""
+        raw = self.refs[(wl, fmt)]['raw']
+        idx = [i + 1 for i, e in enumerate(raw) if e['ev'] and (e['ev'].get('op') == 'rename' and e['ev'].get('t') == 'out')]
+        return [self.make_plan(wl, fmt, [dict(mode='run', f=None, raw_idx=i)], 'after-save') for i in idx if i < len(raw)]
 
     def plans_sigint(self, wl, fmt, stride=1):
         """SIGINT (Ctrl-C / scancel --signal=INT) delivered at a recorded system call: handle_abort_signal sets a
@@ -568,6 +580,8 @@ class C18:
             res['viol'] = viol
             if 'RealNoCompleteFile' in viol:
                 ctx.violation(dict(kind='property', name='RealNoCompleteFile', pattern=pattern, **sig0), detail)
+            if 'SavedIsCheckpoint' in viol:
+                ctx.violation(dict(kind='property', name='SavedIsCheckpoint', **sig0), detail)
             if 'ResumeRuns' in viol:
                 exc = (summ.get('status') or '').replace('exception:', '')
                 ctx.violation(dict(kind='property', name='ResumeRuns', exception=exc, **sig0), detail)
@@ -673,8 +687,9 @@ def check(ctx):
             replay(ctx, t)
             return
         if quick:
-            wls = ['dummy', 'dummy_meas', 'dmrg2', 'dmrg2_min1', 'tebd_trunc']
-            pairs = [('dummy', 'pkl'), ('dummy_meas', 'h5'), ('dmrg2', 'pkl'), ('dmrg2_min1', 'pkl'), ('tebd_trunc', 'pkl')]
+            wls = ['dummy', 'dummy_meas', 'dmrg2', 'dmrg2_min1', 'tebd_trunc', 'expmpo']
+            pairs = [('dummy', 'pkl'), ('dummy_meas', 'h5'), ('dmrg2', 'pkl'), ('dmrg2_min1', 'pkl'), ('tebd_trunc', 'pkl'),
+                     ('expmpo', 'pkl')]
         else:
             wls = list(WL)
             pairs = [(w, f) for w in WL for f in ('pkl', 'h5')]
@@ -704,11 +719,14 @@ def check(ctx):
             for wl, fmt in pairs:
                 plans += t.plans_from_dump(wl, fmt, 6, 3)
         elif quick:
-            plans += t.plans_from_dump('dummy', 'pkl', 20, 5)
+            plans += t.plans_from_dump('dummy', 'pkl', 16, 4)
             plans += t.plans_from_dump('dummy_meas', 'h5', 5, 2)
             plans += t.plans_from_dump('dmrg2', 'pkl', 3, 1)
             plans += t.plans_from_dump('dmrg2_min1', 'pkl', 2, 0)
             plans += t.plans_from_dump('tebd_trunc', 'pkl', 2, 1)
+            # ExpMPOEvolution uses the generic TimeEvolutionAlgorithm.evolve loop (N_steps = 2 evolve_step per run)
+            plans += t.plans_from_dump('expmpo', 'pkl', 2, 0)
+            plans += t.plans_after_saves('expmpo', 'pkl')
             sig = t.plans_sigint('dummy', 'pkl')
             plans += [sig[0], t.rnd.choice(sig[1:])]
         else:
@@ -718,6 +736,9 @@ def check(ctx):
                 else:
                     plans += t.plans_from_dump(wl, fmt, 10, 4)
             # every recorded system call of the uninterrupted run is a crash point (HDF5: every 3rd / 5th pwrite)
+            for wl, fmt in pairs:
+                if WL[wl]['kind'] == 'tevo':
+                    plans += t.plans_after_saves(wl, fmt)
             for wl, fmt, stride in [('dummy', 'pkl', 1), ('dummy_meas', 'pkl', 1), ('dummy', 'h5', 3), ('dmrg2', 'pkl', 1),
                                     ('tebd', 'pkl', 1), ('tdvp', 'h5', 5)]:
                 plans += t.plans_all_calls(wl, fmt, stride)
